@@ -6,9 +6,15 @@
 //!   d ins|rem|has <quad>  d insall|remall <quad> | …  d qm|remm|retm <sm> <pm> <om> [<gm>]  d all  d len  d enum <which>
 //!   v union       all | qm <sm> <pm> <om> | has <triple> | enum <which>          Dataset::union_graph()
 //!   v punion <gm> all | qm … | has … | enum …                                    Dataset::partial_union_graph(gm)
+//!   v iunion      (the same reads)                                               Dataset::into_union_graph() (of `&D`)
 //!   v graph <g>   all | qm … | has … | enum … | ins <triple> | rem <triple>      Dataset::graph(g) / graph_mut(g)
+//!                 | insall|remall <triple> - | <triple> - …  | remm|retm <sm> <pm> <om>
+//!                                                   the DEFAULT bulk methods of MutableGraph called on graph_mut(g)
+//!   v graphm <g>  all | qm … | has … | enum …                                    reads through graph_mut(g) (`&mut D`)
 //!   v asds        all | qm <sm> <pm> <om> <gm> | has <quad> | enum <which> | ins <quad> | rem <quad>
+//!                 | insall|remall <quad> | <quad> …
 //!                                                                                Graph::as_dataset() / as_dataset_mut()
+//!   v asdsm | v ids   all | qm … | has … | enum …          reads through as_dataset_mut() / into_dataset() (of `&G`)
 //!   hist <line> ; <line> ; …     a whole history from scratch, reply = the last line's
 //!
 //! The Rust-side oracle (`FAIL.*`) recomputes what the view must show / how the store must change from
@@ -19,7 +25,7 @@ use dynm::*;
 use sophia_api::dataset::adapter::GraphAsDatasetMutationError;
 use sophia_api::dataset::{DTerm, Dataset, MutableDataset};
 use sophia_api::graph::{GTerm, Graph, MutableGraph};
-use sophia_api::quad::Spog;
+use sophia_api::quad::{Gspo, Spog};
 use sophia_api::source::IntoSource;
 use sophia_api::term::matcher::{GraphNameMatcher, TermMatcher};
 use sophia_api::term::{CmpTerm, SimpleTerm, Term};
@@ -41,6 +47,11 @@ enum Store {
     HD(HashSet<Spog<ST>>),
     BD(BTreeSet<Spog<CT>>),
     VD(Vec<Spog<ST>>),
+    /// the same std collections holding quads in `(g, [s, p, o])` order (other `MutableDataset` impls;
+    /// `Vec<Gspo<_>>::remove` drops only the FIRST matching element)
+    HP(HashSet<Gspo<ST>>),
+    BP(BTreeSet<Gspo<CT>>),
+    VP(Vec<Gspo<ST>>),
     LG(LightGraph),
     FG(FastGraph),
     LG16(sophia_inmem::graph::small::LightGraph),
@@ -138,20 +149,70 @@ fn qreply(actual: Vec<String>, expected: Vec<String>) -> String {
     r
 }
 
-/// reply of a mutation through a view: flag, underlying content afterwards, Rust-side verdict
-fn mut_reply(res: &str, post: Vec<String>, exp_res: Option<&str>, exp_post: Vec<String>) -> String {
-    let a = render_qs(post);
-    let e = render_qs(exp_post);
-    let mut r = format!("r={} st={}", res, a);
-    if let Some(x) = exp_res {
-        if x != res {
-            r += &format!(" FAIL.r=expected:{}", x);
+/// Reply of a mutation through a view: result, underlying content afterwards, Rust-side verdicts.
+///
+/// What the property demands of a mutation through a view: the store changes "in that graph only" and
+/// the result is "the same as the direct operation's".
+/// * set stores (`vec == false`): the content afterwards is EXACTLY `exp` (`FAIL.st`) and the flag / count
+///   says what changed (`FAIL.r`);
+/// * vectors (multiplicities and flags "not significant"): every quad outside `touched` keeps its copies
+///   (`oth=` / `FAIL.oth`), and for a single-quad mutation the copies of that quad grow / shrink (`FAIL.copies`);
+/// * every store: the same operation applied DIRECTLY to a clone of the store gives the same result and the
+///   same content (`FAIL.twin`).
+struct MutOut {
+    s: String,
+    res: String,
+    post: Vec<String>,
+}
+impl MutOut {
+    fn new(res: &str, mut post: Vec<String>) -> Self {
+        post.sort();
+        MutOut { s: format!("r={} st={}", res, render_qs(post.clone())), res: res.to_string(), post }
+    }
+    fn expect_r(&mut self, exp: &str) {
+        if exp != self.res {
+            self.s += &format!(" FAIL.r=expected:{}", exp);
         }
     }
-    if a != e {
-        r += &format!(" FAIL.st=expected:{}", e);
+    fn expect_st(&mut self, exp: Vec<String>) {
+        let e = render_qs(exp);
+        if render_qs(self.post.clone()) != e {
+            self.s += &format!(" FAIL.st=expected:{}", e);
+        }
     }
-    r
+    /// the quads whose key is not in `touched` are as before
+    fn expect_others(&mut self, pre: &[String], touched: &[String]) {
+        let keep = |v: &[String]| render_qs(v.iter().filter(|k| !touched.contains(k)).cloned().collect());
+        let a = keep(&self.post);
+        let e = keep(pre);
+        self.s += &format!(" oth={}", a);
+        if a != e {
+            self.s += &format!(" FAIL.oth=expected:{}", e);
+        }
+    }
+    /// single-quad mutation of a vector: an insertion leaves at least one copy and loses none; a removal
+    /// of a present quad loses at least one copy (all of them or the first: both shipped behaviours)
+    fn expect_copies(&mut self, pre: &[String], k: &String, ins: bool) {
+        let a = pre.iter().filter(|x| *x == k).count();
+        let z = self.post.iter().filter(|x| *x == k).count();
+        let ok = if ins { z >= a.max(1) } else { (a == 0 && z == 0) || z < a };
+        if !ok {
+            self.s += &format!(" FAIL.copies={}->{}", a, z);
+        }
+    }
+    fn twin(&mut self, twin_res: &str, mut twin_post: Vec<String>) {
+        twin_post.sort();
+        if twin_res != self.res || twin_post != self.post {
+            self.s += &format!(" FAIL.twin=direct:r={},st={}", twin_res, render_qs(twin_post));
+        }
+    }
+}
+
+fn count_res<E>(r: &Result<usize, E>) -> String {
+    match r {
+        Ok(n) => n.to_string(),
+        Err(_) => "full".into(),
+    }
 }
 
 /// read-only operations through any `Graph` view; `spec` = the triples the view must show
@@ -224,7 +285,7 @@ fn flag(r: Result<bool, ()>) -> String {
 
 fn ds_exec<D, GT>(d: &mut D, wrap: fn(ST) -> GT, vec: bool, toks: &[&str]) -> String
 where
-    D: MutableDataset + 'static,
+    D: MutableDataset + Clone + 'static,
     D::MutationError: From<D::Error>,
     for<'x> DTerm<'x, D>: Clone,
     GT: for<'x> Term<BorrowTerm<'x> = DTerm<'x, D>> + 'static,
@@ -306,14 +367,21 @@ where
             format!("terms={}", render_ts(v))
         }
         // ------------------------------------------------------------ the dataset seen as a graph
-        ["v", "union", "enum", "qtriples"] => {
+        ["v", "union" | "iunion", "enum", "qtriples"] => {
             let v: Vec<T> = D::union_graph(d).quoted_triples().map(|t| tgen::view(t.unwrap())).collect();
             format!("terms={}", render_ts(v))
         }
-        ["v", "union", sub @ ..] => {
+        ["v", vw @ ("union" | "iunion"), sub @ ..] => {
             let pre = all_quads(d);
             let spec: Vec<Q> = pre.iter().map(into_triple).collect();
-            graph_read(&D::union_graph(d), sub, &spec).unwrap_or_else(|| "bad-op".into())
+            let r = if *vw == "union" {
+                graph_read(&D::union_graph(d), sub, &spec)
+            } else {
+                // the owning constructor, on the `&D` dataset
+                let dr: &D = d;
+                graph_read(&Dataset::into_union_graph(dr), sub, &spec)
+            };
+            r.unwrap_or_else(|| "bad-op".into())
         }
         ["v", "punion", rest @ ..] => {
             let mut it = rest.iter().copied().peekable();
@@ -323,7 +391,7 @@ where
             let spec: Vec<Q> = pre.iter().filter(|q| gm_matches(&gm, &q.g)).map(into_triple).collect();
             graph_read(&D::partial_union_graph(d, GraphNameMatcher::matcher_ref(&gm)), &sub, &spec).unwrap_or_else(|| "bad-op".into())
         }
-        ["v", "graph", rest @ ..] => {
+        ["v", vw @ ("graph" | "graphm"), rest @ ..] => {
             let mut it = rest.iter().copied().peekable();
             let g: Option<T> = if it.peek() == Some(&"-") {
                 it.next();
@@ -336,46 +404,158 @@ where
             };
             let sub: Vec<&str> = it.collect();
             let gname = |g: &Option<T>| g.as_ref().map(|t| wrap(tgen::to_simple(t)));
+            let gs: Option<ST> = g.as_ref().map(tgen::to_simple);
             let gk = g.as_ref().map(|t| canon(t).render());
+            let in_g = |q: &Q| q.g.as_ref().map(|t| canon(t).render()) == gk;
             let pre = all_quads(d);
-            let spec: Vec<Q> = pre.iter().filter(|q| q.g.as_ref().map(|t| canon(t).render()) == gk).map(into_triple).collect();
+            let prek: Vec<String> = pre.iter().map(qkey).collect();
+            let spec: Vec<Q> = pre.iter().filter(|q| in_g(q)).map(into_triple).collect();
+            if *vw == "graphm" {
+                // reads through the MUTABLE view: `DatasetGraph<&mut D, _>` over `impl Dataset for &mut D`
+                let view = D::graph_mut(d, gname(&g));
+                return graph_read(&view, &sub, &spec).unwrap_or_else(|| "bad-op".into());
+            }
             if let Some(r) = graph_read(&D::graph(d, gname(&g)), &sub, &spec) {
                 return r;
             }
+            let with_g = |t: &Q| Q { s: t.s.clone(), p: t.p.clone(), o: t.o.clone(), g: g.clone() };
             match &sub[..] {
                 [op @ ("ins" | "rem"), tt @ ..] => {
                     let Some(t) = parse_triple(tt) else { return "bad-op".into() };
+                    let ins = *op == "ins";
                     let ([s, p, o], _) = tgen::q_to_simple(&t);
-                    let q = Q { s: t.s.clone(), p: t.p.clone(), o: t.o.clone(), g: g.clone() };
-                    let present = pre.iter().any(|x| qkey(x) == qkey(&q));
+                    let k = qkey(&with_g(&t));
+                    let present = prek.contains(&k);
+                    let mut twin = d.clone();
                     let r: Result<bool, ()> = {
                         let mut view = D::graph_mut(d, gname(&g));
-                        if *op == "ins" {
+                        if ins {
                             MutableGraph::insert(&mut view, &s, &p, &o).map_err(|_| ())
                         } else {
                             MutableGraph::remove(&mut view, &s, &p, &o).map_err(|_| ())
                         }
                     };
-                    let post: Vec<String> = all_quads(d).iter().map(qkey).collect();
-                    let mut exp: Vec<String> = pre.iter().map(qkey).collect();
-                    let res = match r {
-                        Ok(x) => b(x),
+                    let tr: Result<bool, ()> = if ins {
+                        MutableDataset::insert(&mut twin, &s, &p, &o, gs.as_ref()).map_err(|_| ())
+                    } else {
+                        MutableDataset::remove(&mut twin, &s, &p, &o, gs.as_ref()).map_err(|_| ())
+                    };
+                    let fl = |r: &Result<bool, ()>| match r {
+                        Ok(x) => b(*x),
                         Err(()) => "full",
                     };
+                    let mut out = MutOut::new(fl(&r), all_quads(d).iter().map(qkey).collect());
+                    out.twin(fl(&tr), all_quads(&twin).iter().map(qkey).collect());
                     if r.is_err() {
-                        return mut_reply(res, post, None, exp);
+                        out.expect_st(prek);
+                        return out.s;
                     }
-                    let exp_res;
-                    if *op == "ins" {
-                        if vec || !present {
-                            exp.push(qkey(&q));
-                        }
-                        exp_res = b(!present);
+                    if vec {
+                        out.expect_others(&prek, &[k.clone()]);
+                        out.expect_copies(&prek, &k, ins);
                     } else {
-                        exp.retain(|x| *x != qkey(&q));
-                        exp_res = b(present);
+                        let mut exp = prek.clone();
+                        if ins {
+                            if !present {
+                                exp.push(k.clone());
+                            }
+                            out.expect_r(b(!present));
+                        } else {
+                            exp.retain(|x| *x != k);
+                            out.expect_r(b(present));
+                        }
+                        out.expect_st(exp);
                     }
-                    mut_reply(res, post, if vec { None } else { Some(exp_res) }, exp)
+                    out.s
+                }
+                // the DEFAULT bulk methods of `MutableGraph`, called on the mutable view
+                [op @ ("insall" | "remall"), tt @ ..] => {
+                    let Some(ts) = parse_quads(&tt.join(" ")) else { return "bad-op".into() };
+                    let ins = *op == "insall";
+                    let sts: Vec<[ST; 3]> = ts.iter().map(|q| tgen::q_to_simple(q).0).collect();
+                    let sqs: Vec<SQ> = sts.iter().map(|t| (t.clone(), gs.clone())).collect();
+                    let mut twin = d.clone();
+                    let r: Result<usize, ()> = {
+                        let mut view = D::graph_mut(d, gname(&g));
+                        if ins {
+                            view.insert_all(sts.into_iter().into_source()).map_err(|_| ())
+                        } else {
+                            view.remove_all(sts.into_iter().into_source()).map_err(|_| ())
+                        }
+                    };
+                    let tr: Result<usize, ()> = if ins {
+                        twin.insert_all(sqs.into_iter().into_source()).map_err(|_| ())
+                    } else {
+                        twin.remove_all(sqs.into_iter().into_source()).map_err(|_| ())
+                    };
+                    let mut out = MutOut::new(&count_res(&r), all_quads(d).iter().map(qkey).collect());
+                    out.twin(&count_res(&tr), all_quads(&twin).iter().map(qkey).collect());
+                    if r.is_err() {
+                        return out.s;
+                    }
+                    let touched: Vec<String> = ts.iter().map(|t| qkey(&with_g(t))).collect();
+                    if vec {
+                        out.expect_others(&prek, &touched);
+                    } else {
+                        let mut exp = prek.clone();
+                        let mut n = 0;
+                        for k in &touched {
+                            let present = exp.contains(k);
+                            if ins && !present {
+                                exp.push(k.clone());
+                                n += 1;
+                            }
+                            if !ins && present {
+                                exp.retain(|x| x != k);
+                                n += 1;
+                            }
+                        }
+                        out.expect_r(&n.to_string());
+                        out.expect_st(exp);
+                    }
+                    out.s
+                }
+                [op @ ("remm" | "retm"), tt @ ..] => {
+                    let mut toks = tt.iter().copied().peekable();
+                    let (Some(sm), Some(pm), Some(om)) = (parse_tm(&mut toks), parse_tm(&mut toks), parse_tm(&mut toks)) else {
+                        return "bad-op".into();
+                    };
+                    if toks.peek().is_some() {
+                        return "bad-op".into();
+                    }
+                    let hit = |q: &Q| tm_matches(&sm, &q.s) && tm_matches(&pm, &q.p) && tm_matches(&om, &q.o);
+                    let remm = *op == "remm";
+                    let mut twin = d.clone();
+                    let res: String = {
+                        let mut view = D::graph_mut(d, gname(&g));
+                        if remm {
+                            match view.remove_matching(DMRef(&sm), DMRef(&pm), DMRef(&om)) {
+                                Ok(n) => n.to_string(),
+                                Err(_) => "err".into(),
+                            }
+                        } else {
+                            match view.retain_matching(DMRef(&sm), DMRef(&pm), DMRef(&om)) {
+                                Ok(()) => "ok".into(),
+                                Err(_) => "err".into(),
+                            }
+                        }
+                    };
+                    let mut out = MutOut::new(&res, all_quads(d).iter().map(qkey).collect());
+                    // whatever the store does with repeated elements, every selected quad goes and nothing else
+                    let gone = |q: &Q| in_g(q) && (hit(q) == remm);
+                    out.expect_st(pre.iter().filter(|q| !gone(q)).map(qkey).collect());
+                    if remm {
+                        if !vec {
+                            out.expect_r(&pre.iter().filter(|q| gone(q)).count().to_string());
+                        }
+                        // the direct operation: the dataset's remove_matching with `[g]` in the graph position
+                        let tr = match twin.remove_matching(DMRef(&sm), DMRef(&pm), DMRef(&om), [gs.as_ref()]) {
+                            Ok(n) => n.to_string(),
+                            Err(_) => "err".into(),
+                        };
+                        out.twin(&tr, all_quads(&twin).iter().map(qkey).collect());
+                    }
+                    out.s
                 }
                 _ => "bad-op".into(),
             }
@@ -384,7 +564,7 @@ where
     }
 }
 
-fn gr_exec<G: MutableGraph>(g: &mut G, vec: bool, toks: &[&str]) -> String
+fn gr_exec<G: MutableGraph + Clone>(g: &mut G, vec: bool, toks: &[&str]) -> String
 where
     G::MutationError: From<G::Error>,
     for<'x> GTerm<'x, G>: Clone,
@@ -452,76 +632,100 @@ where
             graph_read(pre, &["enum", which], &[]).unwrap_or_else(|| "bad-op".into())
         }
         // ------------------------------------------------------------ the graph seen as a dataset
-        ["v", "asds", sub @ ..] => {
+        ["v", vw @ ("asds" | "asdsm" | "ids"), sub @ ..] => {
             let pre = all_triples(g);
+            let prek: Vec<String> = pre.iter().map(tkey).collect();
+            // the read-only operations, through `as_dataset()`, `as_dataset_mut()` (`GraphAsDataset<&mut G>` over
+            // `impl Graph for &mut G`) or the owning `into_dataset()` of the `&G` graph
+            macro_rules! reads {
+                ($ds:expr, $qt:expr) => {{
+                    let ds = $ds;
+                    match sub {
+                        ["all"] => {
+                            let v: Vec<String> = ds.quads().map(|q| qkey(&tgen::view_quad(q.unwrap()))).collect();
+                            return qreply(v, pre.iter().map(qkey).collect());
+                        }
+                        ["qm", rest @ ..] => {
+                            let mut toks = rest.iter().copied().peekable();
+                            let (Some(sm), Some(pm), Some(om), Some(gm)) =
+                                (parse_tm(&mut toks), parse_tm(&mut toks), parse_tm(&mut toks), parse_gm(&mut toks))
+                            else {
+                                return "bad-op".into();
+                            };
+                            if toks.peek().is_some() {
+                                return "bad-op".into();
+                            }
+                            let v: Vec<String> = ds
+                                .quads_matching(DMRef(&sm), DMRef(&pm), DMRef(&om), GraphNameMatcher::matcher_ref(&gm))
+                                .map(|q| qkey(&tgen::view_quad(q.unwrap())))
+                                .collect();
+                            let e = pre
+                                .iter()
+                                .filter(|q| {
+                                    gm_matches(&gm, &None) && tm_matches(&sm, &q.s) && tm_matches(&pm, &q.p) && tm_matches(&om, &q.o)
+                                })
+                                .map(qkey)
+                                .collect();
+                            return qreply(v, e);
+                        }
+                        ["has", rest @ ..] => {
+                            let Some(q) = parse_quad(rest) else { return "bad-op".into() };
+                            let ([s, p, o], gn) = tgen::q_to_simple(&q);
+                            let r = Dataset::contains(&ds, &s, &p, &o, gn.as_ref()).unwrap();
+                            let e = q.g.is_none() && pre.iter().any(|x| tkey(x) == tkey(&q));
+                            let mut out = format!("r={}", b(r));
+                            if r != e {
+                                out += &format!(" FAIL.r=expected:{}", b(e));
+                            }
+                            return out;
+                        }
+                        ["enum", which] => {
+                            macro_rules! en {
+                                ($m:ident) => {
+                                    ds.$m().map(|t| tgen::view(t.unwrap())).collect::<Vec<T>>()
+                                };
+                            }
+                            let v: Vec<T> = match *which {
+                                "subjects" => en!(subjects),
+                                "predicates" => en!(predicates),
+                                "objects" => en!(objects),
+                                "graphs" => en!(graph_names),
+                                "iris" => en!(iris),
+                                "bnodes" => en!(blank_nodes),
+                                "literals" => en!(literals),
+                                "vars" => en!(variables),
+                                "qtriples" if $qt => en!(quoted_triples),
+                                _ => return "bad-op".into(),
+                            };
+                            return format!("terms={}", render_ts(v));
+                        }
+                        _ => {}
+                    }
+                }};
+            }
+            match *vw {
+                "asds" => reads!(G::as_dataset(g), true),
+                "asdsm" => {
+                    reads!(G::as_dataset_mut(g), true);
+                    return "bad-op".into();
+                }
+                _ => {
+                    let gr: &G = g;
+                    reads!(Graph::into_dataset(gr), true);
+                    return "bad-op".into();
+                }
+            }
             match sub {
-                ["all"] => {
-                    let v: Vec<String> = G::as_dataset(g).quads().map(|q| qkey(&tgen::view_quad(q.unwrap()))).collect();
-                    qreply(v, pre.iter().map(qkey).collect())
-                }
-                ["qm", rest @ ..] => {
-                    let mut toks = rest.iter().copied().peekable();
-                    let (Some(sm), Some(pm), Some(om), Some(gm)) =
-                        (parse_tm(&mut toks), parse_tm(&mut toks), parse_tm(&mut toks), parse_gm(&mut toks))
-                    else {
-                        return "bad-op".into();
-                    };
-                    if toks.peek().is_some() {
-                        return "bad-op".into();
-                    }
-                    let ds = G::as_dataset(g);
-                    let v: Vec<String> = ds
-                        .quads_matching(DMRef(&sm), DMRef(&pm), DMRef(&om), GraphNameMatcher::matcher_ref(&gm))
-                        .map(|q| qkey(&tgen::view_quad(q.unwrap())))
-                        .collect();
-                    let e = pre
-                        .iter()
-                        .filter(|q| {
-                            gm_matches(&gm, &None) && tm_matches(&sm, &q.s) && tm_matches(&pm, &q.p) && tm_matches(&om, &q.o)
-                        })
-                        .map(qkey)
-                        .collect();
-                    qreply(v, e)
-                }
-                ["has", rest @ ..] => {
-                    let Some(q) = parse_quad(rest) else { return "bad-op".into() };
-                    let ([s, p, o], gn) = tgen::q_to_simple(&q);
-                    let r = Dataset::contains(&G::as_dataset(g), &s, &p, &o, gn.as_ref()).unwrap();
-                    let e = q.g.is_none() && pre.iter().any(|x| tkey(x) == tkey(&q));
-                    let mut out = format!("r={}", b(r));
-                    if r != e {
-                        out += &format!(" FAIL.r=expected:{}", b(e));
-                    }
-                    out
-                }
-                ["enum", which] => {
-                    let ds = G::as_dataset(g);
-                    macro_rules! en {
-                        ($m:ident) => {
-                            ds.$m().map(|t| tgen::view(t.unwrap())).collect::<Vec<T>>()
-                        };
-                    }
-                    let v: Vec<T> = match *which {
-                        "subjects" => en!(subjects),
-                        "predicates" => en!(predicates),
-                        "objects" => en!(objects),
-                        "graphs" => en!(graph_names),
-                        "iris" => en!(iris),
-                        "bnodes" => en!(blank_nodes),
-                        "literals" => en!(literals),
-                        "vars" => en!(variables),
-                        "qtriples" => en!(quoted_triples),
-                        _ => return "bad-op".into(),
-                    };
-                    format!("terms={}", render_ts(v))
-                }
                 [op @ ("ins" | "rem"), rest @ ..] => {
                     let Some(q) = parse_quad(rest) else { return "bad-op".into() };
+                    let ins = *op == "ins";
                     let ([s, p, o], gn) = tgen::q_to_simple(&q);
-                    let present = pre.iter().any(|x| tkey(x) == tkey(&q));
+                    let k = tkey(&q);
+                    let present = prek.contains(&k);
+                    let mut twin = g.clone();
                     let r = {
                         let mut ds = G::as_dataset_mut(g);
-                        if *op == "ins" {
+                        if ins {
                             MutableDataset::insert(&mut ds, &s, &p, &o, gn.as_ref())
                         } else {
                             MutableDataset::remove(&mut ds, &s, &p, &o, gn.as_ref())
@@ -532,27 +736,100 @@ where
                         Err(GraphAsDatasetMutationError::Graph(_)) => "full",
                         Err(GraphAsDatasetMutationError::OnlyDefaultGraph) => "only-default",
                     };
-                    let post: Vec<String> = all_triples(g).iter().map(tkey).collect();
-                    let mut exp: Vec<String> = pre.iter().map(tkey).collect();
-                    if res == "full" {
-                        return mut_reply(res, post, None, exp);
-                    }
+                    let mut out = MutOut::new(res, all_triples(g).iter().map(tkey).collect());
                     if q.g.is_some() {
                         // a graph seen as a dataset has only a default graph
-                        return mut_reply(res, post, Some(if *op == "ins" { "only-default" } else { "0" }), exp);
+                        out.expect_r(if ins { "only-default" } else { "0" });
+                        out.expect_st(prek);
+                        return out.s;
                     }
-                    let exp_res;
-                    if *op == "ins" {
-                        if vec || !present {
-                            exp.push(tkey(&q));
-                        }
-                        exp_res = b(!present);
+                    let tr: Result<bool, ()> = if ins {
+                        MutableGraph::insert(&mut twin, &s, &p, &o).map_err(|_| ())
                     } else {
-                        exp.retain(|x| *x != tkey(&q));
-                        exp_res = b(present);
+                        MutableGraph::remove(&mut twin, &s, &p, &o).map_err(|_| ())
+                    };
+                    out.twin(
+                        match &tr {
+                            Ok(x) => b(*x),
+                            Err(()) => "full",
+                        },
+                        all_triples(&twin).iter().map(tkey).collect(),
+                    );
+                    if res == "full" {
+                        out.expect_st(prek);
+                        return out.s;
                     }
-                    mut_reply(res, post, if vec { None } else { Some(exp_res) }, exp)
+                    if vec {
+                        out.expect_others(&prek, &[k.clone()]);
+                        out.expect_copies(&prek, &k, ins);
+                    } else {
+                        let mut exp = prek.clone();
+                        if ins {
+                            if !present {
+                                exp.push(k.clone());
+                            }
+                            out.expect_r(b(!present));
+                        } else {
+                            exp.retain(|x| *x != k);
+                            out.expect_r(b(present));
+                        }
+                        out.expect_st(exp);
+                    }
+                    out.s
                 }
+                // the DEFAULT bulk methods of `MutableDataset`, called on the mutable view
+                [op @ ("insall" | "remall"), rest @ ..] => {
+                    let Some(qs) = parse_quads(&rest.join(" ")) else { return "bad-op".into() };
+                    let ins = *op == "insall";
+                    let sqs: Vec<SQ> = qs.iter().map(tgen::q_to_simple).collect();
+                    let r = {
+                        let mut ds = G::as_dataset_mut(g);
+                        if ins {
+                            ds.insert_all(sqs.into_iter().into_source()).map_err(|e| e.unwrap_sink_error())
+                        } else {
+                            ds.remove_all(sqs.into_iter().into_source()).map_err(|e| e.unwrap_sink_error())
+                        }
+                    };
+                    let res = match &r {
+                        Ok(n) => n.to_string(),
+                        Err(GraphAsDatasetMutationError::Graph(_)) => "full".into(),
+                        Err(GraphAsDatasetMutationError::OnlyDefaultGraph) => "only-default".into(),
+                    };
+                    let mut out = MutOut::new(&res, all_triples(g).iter().map(tkey).collect());
+                    if res == "full" {
+                        return out.s;
+                    }
+                    // only the listed triples of the default graph may be touched, whatever happens
+                    let touched: Vec<String> = qs.iter().filter(|q| q.g.is_none()).map(tkey).collect();
+                    if ins && qs.iter().any(|q| q.g.is_some()) {
+                        // the first quad of a named graph is refused and ends the insertion
+                        out.expect_r("only-default");
+                        out.expect_others(&prek, &touched);
+                        return out.s;
+                    }
+                    if vec {
+                        out.expect_others(&prek, &touched);
+                    } else {
+                        let mut exp = prek.clone();
+                        let mut n = 0;
+                        for k in &touched {
+                            let present = exp.contains(k);
+                            if ins && !present {
+                                exp.push(k.clone());
+                                n += 1;
+                            }
+                            if !ins && present {
+                                exp.retain(|x| x != k);
+                                n += 1;
+                            }
+                        }
+                        out.expect_r(&n.to_string());
+                        out.expect_st(exp);
+                    }
+                    out.s
+                }
+                // NB: `remove_matching` / `retain_matching` can not be called on a `GraphAsDataset`: they require
+                // `MutationError: From<Error>`, which `GraphAsDatasetMutationError<_>` does not provide
                 _ => "bad-op".into(),
             }
         }
@@ -580,6 +857,9 @@ fn new_store(kind: &str, width: &str) -> Option<Store> {
         ("HD", _) => Store::HD(HashSet::new()),
         ("BD", _) => Store::BD(BTreeSet::new()),
         ("VD", _) => Store::VD(Vec::new()),
+        ("HP", _) => Store::HP(HashSet::new()),
+        ("BP", _) => Store::BP(BTreeSet::new()),
+        ("VP", _) => Store::VP(Vec::new()),
         ("HG", _) => Store::HG(HashSet::new()),
         ("BG", _) => Store::BG(BTreeSet::new()),
         ("VG", _) => Store::VG(Vec::new()),
@@ -606,6 +886,9 @@ fn exec_on(cur: &mut Option<Store>, toks: &[&str]) -> String {
         Store::HD(d) => ds_exec(d, wrap_id, false, toks),
         Store::BD(d) => ds_exec(d, wrap_cmp, false, toks),
         Store::VD(d) => ds_exec(d, wrap_id, true, toks),
+        Store::HP(d) => ds_exec(d, wrap_id, false, toks),
+        Store::BP(d) => ds_exec(d, wrap_cmp, false, toks),
+        Store::VP(d) => ds_exec(d, wrap_id, true, toks),
         Store::LG(g) => gr_exec(g, false, toks),
         Store::FG(g) => gr_exec(g, false, toks),
         Store::LG16(g) => gr_exec(g, false, toks),
